@@ -94,12 +94,14 @@ pub enum From {
     Table(usize, usize),
     Sub(Box<Query>, usize),
     Join(JoinKind, Box<From>, Box<From>, Expr),
+    /// reference to view / CTE number i (named v<i> in SQL) of the given width
+    View(usize, usize),
 }
 
 impl From {
     pub fn width(&self) -> usize {
         match self {
-            From::Table(_, w) | From::Sub(_, w) => *w,
+            From::Table(_, w) | From::Sub(_, w) | From::View(_, w) => *w,
             From::Join(_, l, r, _) => l.width() + r.width(),
         }
     }
@@ -151,6 +153,17 @@ pub fn gen_db(r: &mut Rng, max_tables: usize, max_rows: usize) -> DbDef {
         tables.push(TableDef { cols, rows });
     }
     DbDef { tables }
+}
+
+/// Like gen_db but every table has between `min_rows` and `max_rows` rows.
+pub fn gen_db_sized(r: &mut Rng, max_tables: usize, min_rows: usize, max_rows: usize) -> DbDef {
+    let mut d = gen_db(r, max_tables, 0);
+    for t in d.tables.iter_mut() {
+        let n = min_rows + r.below((max_rows - min_rows + 1) as u64) as usize;
+        let null_pct = *r.pick(&[0u64, 10, 25]);
+        t.rows = (0..n).map(|_| t.cols.iter().map(|c| gen_val(r, *c, null_pct)).collect()).collect();
+    }
+    d
 }
 
 pub fn sql_lit(v: &Val) -> String {
@@ -214,6 +227,10 @@ pub fn create_sql(d: &DbDef) -> Vec<String> {
 
 pub struct SqlPrinter {
     next_alias: usize,
+    /// how the outermost ORDER BY is written: 0 = positions, 1 = select-list aliases, 2 = the
+    /// select-list expressions repeated
+    pub order_style: u8,
+    depth: usize,
 }
 
 fn binop_sql(op: BinOp) -> &'static str {
@@ -245,7 +262,7 @@ fn agg_sql(f: AggFn, distinct: bool, arg: &str) -> String {
 
 impl SqlPrinter {
     pub fn new() -> SqlPrinter {
-        SqlPrinter { next_alias: 0 }
+        SqlPrinter { next_alias: 0, order_style: 0, depth: 0 }
     }
 
     fn alias(&mut self) -> String {
@@ -302,6 +319,10 @@ impl SqlPrinter {
                 let a = self.alias();
                 (format!("tab{} {}", n, a), (0..*w).map(|i| format!("{}.c{}", a, i)).collect())
             }
+            From::View(n, w) => {
+                let a = self.alias();
+                (format!("v{} {}", n, a), (0..*w).map(|i| format!("{}.c{}", a, i)).collect())
+            }
             From::Sub(q, w) => {
                 let a = self.alias();
                 let inner = self.query(q, outer, true);
@@ -336,6 +357,11 @@ impl SqlPrinter {
                 format!("{} {}{} {}", self.query(l, outer, name_cols), kw, if *all { " ALL" } else { "" }, self.query(r, outer, name_cols))
             }
             Query::Select(s) => {
+                let top = self.depth == 0;
+                self.depth += 1;
+                // ORDER BY <alias>: the aliases are named k0, k1, ... so that they do not shadow the
+                // base tables' column names c0, c1, ...
+                let order_alias = top && self.order_style == 1 && !s.order.is_empty() && !name_cols;
                 let mut from_texts = Vec::new();
                 let mut cols = Vec::new();
                 for f in &s.from {
@@ -368,18 +394,11 @@ impl SqlPrinter {
                     scopes.clone()
                 };
                 let having_s = s.having.as_ref().map(|h| self.expr(h, &out_scopes));
-                let proj_s: Vec<String> = s
-                    .proj
+                let proj_texts: Vec<String> = s.proj.iter().map(|p| self.expr(p, &out_scopes)).collect();
+                let proj_s: Vec<String> = proj_texts
                     .iter()
                     .enumerate()
-                    .map(|(i, p)| {
-                        let t = self.expr(p, &out_scopes);
-                        if name_cols {
-                            format!("{} AS c{}", t, i)
-                        } else {
-                            t
-                        }
-                    })
+                    .map(|(i, t)| if name_cols { format!("{} AS c{}", t, i) } else if order_alias { format!("{} AS k{}", t, i) } else { t.clone() })
                     .collect();
                 let mut sql = format!("SELECT {}{} FROM {}", if s.distinct { "DISTINCT " } else { "" }, proj_s.join(", "), from_texts.join(", "));
                 if let Some(w) = where_s {
@@ -392,11 +411,25 @@ impl SqlPrinter {
                     sql.push_str(&format!(" HAVING {}", h));
                 }
                 if !s.order.is_empty() {
+                    let style = if top { self.order_style } else { 0 };
                     sql.push_str(&format!(
                         " ORDER BY {}",
-                        s.order.iter().map(|(i, d)| format!("{}{}", i + 1, if *d { " DESC" } else { "" })).collect::<Vec<_>>().join(", ")
+                        s.order
+                            .iter()
+                            .map(|(i, d)| {
+                                let key = match style {
+                                    1 => format!("{}{}", if order_alias { "k" } else { "c" }, i),
+                                    // a bare integer would be read as a position
+                                    2 if proj_texts[*i].trim_matches(|c| c == '(' || c == ')').parse::<i64>().is_err() => proj_texts[*i].clone(),
+                                    _ => format!("{}", i + 1),
+                                };
+                                format!("{}{}", key, if *d { " DESC" } else { "" })
+                            })
+                            .collect::<Vec<_>>()
+                            .join(", ")
                     ));
                 }
+                self.depth -= 1;
                 if let Some(n) = s.limit {
                     sql.push_str(&format!(" LIMIT {}", n));
                 }
@@ -411,6 +444,18 @@ impl SqlPrinter {
 
 pub fn to_sql(q: &Query) -> String {
     SqlPrinter::new().query(q, &[], false)
+}
+
+/// The query printed so that it can be a view / CTE body: its select list is aliased c0, c1, ...
+pub fn to_sql_named(q: &Query) -> String {
+    SqlPrinter::new().query(q, &[], true)
+}
+
+/// Same query with the outermost ORDER BY written as positions (0), aliases (1) or expressions (2).
+pub fn to_sql_styled(q: &Query, order_style: u8) -> String {
+    let mut p = SqlPrinter::new();
+    p.order_style = order_style;
+    p.query(q, &[], false)
 }
 
 fn coq_bool(b: bool) -> &'static str {
@@ -456,6 +501,7 @@ pub fn coq_expr(e: &Expr) -> String {
 pub fn coq_from(f: &From) -> String {
     match f {
         From::Table(n, w) => format!("(FTable {} {})", n, w),
+        From::View(n, w) => format!("(FView {} {})", n, w),
         From::Sub(q, w) => format!("(FSub {} {})", coq_query(q), w),
         From::Join(k, l, r, on) => format!(
             "(FJoin {} {} {} {})",
@@ -903,6 +949,7 @@ pub fn features(q: &Query, out: &mut Vec<&'static str>) {
     fn ff(f: &From, out: &mut Vec<&'static str>) {
         match f {
             From::Table(..) => {}
+            From::View(..) => out.push("view-ref"),
             From::Sub(q, _) => {
                 out.push("derived-table");
                 features(q, out)
@@ -983,7 +1030,7 @@ pub fn from_base_tables(from: &[From]) -> Vec<usize> {
     fn go(f: &From, out: &mut Vec<usize>) {
         match f {
             From::Table(n, _) => out.push(*n),
-            From::Sub(..) => out.push(usize::MAX),
+            From::Sub(..) | From::View(..) => out.push(usize::MAX),
             From::Join(_, l, r, _) => {
                 go(l, out);
                 go(r, out);
@@ -1013,7 +1060,7 @@ pub fn has_selfjoin_3way(q: &Query) -> bool {
     }
     fn in_from(f: &From) -> bool {
         match f {
-            From::Table(..) => false,
+            From::Table(..) | From::View(..) => false,
             From::Sub(q, _) => has_selfjoin_3way(q),
             From::Join(_, l, r, on) => in_from(l) || in_from(r) || in_expr(on),
         }
